@@ -457,6 +457,24 @@ def _lik_terms(case, ctx, g):
     if (pol == "fill" or case.get("legacy_class")) and not t and elp.shape == elp_full.shape:
         ctx.close("expected_log_prob_elementwise", elp, elp_full * keep, "direct", cls="elp:fill:elementwise")
     ctx.expect("no_nan_leaves", bool(torch.isfinite(elp).all() and torch.isfinite(lm).all()), "NaN in likelihood terms", where="lik_terms")
+    # the SAME target buffer refilled in place (a pending observation arrives, other targets, another missing pattern), the same
+    # likelihood object called again: the terms of the targets it holds NOW
+    miss2 = torch.roll(miss, shifts=1, dims=-1 if not t else -2)
+    if pol == "mask" and b:
+        miss2 = miss2.any(0, keepdim=True).expand_as(miss2).clone()
+    y2 = mean + util.randn(g, *mean.shape)
+    yn.copy_(torch.where(miss2, torch.full_like(y2, float("nan")), y2))
+    elp2_full = -0.5 * (((y2 - mean) ** 2 + v) / r + torch.log(r) + math.log(2 * math.pi))
+    lm2_full = -0.5 * ((y2 - mean) ** 2 / (v + r) + torch.log(v + r) + math.log(2 * math.pi))
+    keep2 = (~miss2).to(elp_full.dtype)
+    with S.observation_nan_policy(pol), torch.no_grad():
+        try:
+            elp2 = lik.expected_log_prob(yn, d)
+            lm2 = lik.log_marginal(yn, d)
+            ctx.close("expected_log_prob", elp2.reshape(*b, -1).sum(-1), (elp2_full * keep2).sum(dims), "direct", cls=f"elp:{pol}:refilled_buffer", policy=pol)
+            ctx.close("log_marginal", lm2.reshape(*b, -1).sum(-1), (lm2_full * keep2).sum(dims), "direct", cls=f"lm:{pol}:refilled_buffer", policy=pol)
+        except Exception as e:
+            ctx.fail("expected_log_prob", f"second call on the refilled target buffer raised {type(e).__name__}: {str(e)[:120]}", "raise", policy=pol)
     ctx.cell({k: v_ for k, v_ in case.items() if k != "seed"}, nontrivial=bool(miss.any()))
 
 
